@@ -555,6 +555,8 @@ def post_token_assignments(lTokens):
                 lTokens[iToken].iId = iParenId
 
             elif sValue == ")":
+                if len(lParenId) == 0:
+                    utils.print_error_message("matching (", parser.close_parenthesis, iToken, lTokens)
                 lTokens[iToken] = parser.close_parenthesis()
                 lTokens[iToken].iId = lParenId.pop()
 
@@ -629,6 +631,8 @@ def set_aggregate_tokens(lTokens):
         if type(oToken) == parser.open_parenthesis:
             lOpenParens.append(iToken)
         if type(oToken) == parser.close_parenthesis:
+            if len(lOpenParens) == 0:
+                utils.print_error_message("matching (", parser.close_parenthesis, iToken, lTokens)
             iIndex = lOpenParens.pop()
             if isinstance(lTokens[iIndex], token.aggregate.open_parenthesis):
                 iId = oToken.iId
